@@ -11,7 +11,7 @@ import AdaptixModel.Types.GenericWf
   class     {"params": [n…], "orig": [base…]|null, "bases": [base…], "mro": [i…], "ann": [[key, hint]…]}
   hierarchy {"kind": "dataclass"|"attrs"|"namedtuple"|"typeddict"|"pydantic", "tvars": [tvar…], "classes": [class…]}
 
-  ops: resolve {h, target: base}  ->  {members, spec, wf, prec, ovis}
+  ops: resolve {h, target: base}  ->  {members, spec, wf, prec, ovis, mono, noconf}
        raw     {h, cls}           ->  {members, overridden, orig}
        implicit{tvar}             ->  hint
 -/
@@ -120,7 +120,9 @@ def handle : Protocol.Handler := fun j => do
       ("spec", listJ spec),
       ("wf", Json.bool (decide (Wf H))),
       ("prec", Json.bool (decide (PrecedenceAgrees H))),
-      ("ovis", Json.bool (decide (OverrideVisible H)))]
+      ("ovis", Json.bool (decide (OverrideVisible H))),
+      ("mono", Json.bool (decide (MroMonotone H))),
+      ("noconf", Json.bool (decide (NoConflict H)))]
   | "raw" =>
     let H ← decHierarchy (← field j "h")
     let c ← fieldNat j "cls"
